@@ -11,3 +11,18 @@ claim("C12", "proof",
       "established on the model's domain r < sigma.",
       "value-graph term extraction + exact symbolic identity (R-ALG), dispatcher exhaustiveness table (R-DISPATCH)",
       "DESIGN.md section 4, C12")
+
+claim("C08", "proof",
+      "All 121 tabulated closed forms (SphHarm0..10) are read from the syntax tree and proved equal, as identities in both "
+      "angles, to Y_lm generated from the definition (Rodrigues formula, Condon-Shortley phase) by reduction to the canonical "
+      "form A(c,z)+s*B(c,z) with exact radical coefficients; entry k is shown to be m = k-l. The dispatcher is decided on "
+      "l=1..12 (each l<=10 returns its own table with (theta,phi) in order, l>10 delegates, nothing falls through); the "
+      "delegated call is checked against the library's argument convention through the import and its fallback wrapper; the "
+      "imported API must exist or be guarded with a fallback. The consequences named in the property (sum rule, conjugation "
+      "symmetry) follow from equality with the definition.",
+      "Trusted: the definition of Y_lm coded in pmsa/checks/c08.py, sympy exact arithmetic, the documented argument order of "
+      "scipy.special.sph_harm / sph_harm_y (signature table); for l > 10 scipy's numerical values are trusted, only the call "
+      "convention is decided. cmath/numpy elementary functions are read as the mathematical functions.",
+      "closed-form table vs generated definition by canonical-form identity (R-TABLE-YLM); dispatcher exhaustiveness "
+      "(R-DISPATCH); library call-convention table (R-ANGLE); import resolution (R-API)",
+      "DESIGN.md section 4, C08")
